@@ -75,7 +75,8 @@ def run_case(case: dict) -> dict:
     net2.bus = Link(frames, to(net1))
     prod = canopen.LocalNode(case.get("nid", 4), od)
     net1.add_node(prod)
-    consn = canopen.RemoteNode(case.get("nid", 4), od)
+    od2 = build_od(lay, max(1, len(cons_cfg)))
+    consn = canopen.RemoteNode(case.get("nid", 4), od2)
     net2.add_node(consn)
     pmap = prod.tpdo[1]
     pmap.cob_id = case["pcob"]
@@ -90,8 +91,18 @@ def run_case(case: dict) -> dict:
     cmaps, cbcount = [], []
     for k, c in enumerate(cons_cfg):
         pm = consn.tpdo[k + 1]
-        pm.cob_id, pm.enabled, pm.rtr_allowed = c["cob"], c["enabled"], c["rtr"]
-        add_vars(pm)
+        if case.get("via_read"):
+            # the consumer learns the shared configuration from its object dictionary (as from a DCF)
+            od2[0x1800 + k][1].default = (c["cob"] | (0 if c["enabled"] else 0x80000000)
+                                          | (0 if c["rtr"] else 0x40000000))
+            od2[0x1800 + k][2].default = 255
+            od2[0x1A00 + k][0].default = len(lay)
+            for i, (t, n) in enumerate(lay):
+                od2[0x1A00 + k][i + 1].default = ((0x2000 + i) << 16) | n
+            pm.read(from_od=True)
+        else:
+            pm.cob_id, pm.enabled, pm.rtr_allowed = c["cob"], c["enabled"], c["rtr"]
+            add_vars(pm)
         cbcount.append(0)
         for _ in range(c["ncb"]):
             pm.add_callback(lambda m, _k=k: cbcount.__setitem__(_k, cbcount[_k] + 1))
